@@ -757,6 +757,12 @@ func isCommonWord(word string) bool {
 
 // SearchWithNLP performs natural language search with advanced query processing
 func (db *Database) SearchWithNLP(query string, options SearchOptions) []SearchResult {
+	if options.Limit <= 0 {
+		// like the other entry points: a non-positive limit means the default (a negative
+		// one made the TF-IDF searcher slice its results out of range)
+		options.Limit = constants.DefaultSearchLimit
+	}
+
 	if !options.UseNLP {
 		// Fall back to regular search if NLP is disabled
 		return db.SearchWithFuzzy(query, options)
